@@ -385,6 +385,13 @@ def gen_doc(rng, world, need, want_nosemi=False, nonascii_tail=False, exclude=()
     if tight == "one_line" or (not tight and rng.chance(1, 6)):
         main = one_line_main
     tops.append(main)
+    taken = {need} | set(exclude) | {x for _, ms, _ in imports for x in ms}
+    coll = [c for cs in EXPORTERS.values() for c in cs if c not in taken]
+    if coll and rng.chance(1, 7):
+        # a toplevel of the document with the name of a class that another module exports
+        cx = rng.pick(sorted(set(coll)))
+        tops.append(rng.pick([f"class {cx} {{ function own(): int = 7 }}", f"interface {cx} {{ function own(): int }}",
+                              f"private class {cx} {{}}"]))
     if use == "two":
         tops.append(f"interface Other {{ function h(y: {need}): int }}")
     elif rng.chance(1, 5):
@@ -506,7 +513,7 @@ def gen_case(rng, want_nosemi=False, nonascii_tail=False, force_hist=None, tight
     meta["names"] = ("long" if world["long_classes"] else "short") + "-class/" + ("long" if world["long_mods"] else "short") + "-module"
     meta["stale"] = stale_kind or ""
     return {"lines": lines, "doc": doc, "need": need, "exporters": exporters, "meta": meta, "ifaces": ifaces, "role": role,
-            "offer_optional": hist == "stale_import"}
+            "offer_optional": hist == "stale_import", "private_name": cn("Hidden")}
 
 
 # --- independent splice ---------------------------------------------------------------------
@@ -619,12 +626,13 @@ def judge(doc, base, after, name, module, edits_reason):
     # otherwise the same program: no diagnostic that was not there before (other than about `name`
     # itself, which is now resolved and therefore checked for the first time)
     old_msgs = [m for k, _, m in base["errs"] if k != "S"]
+    was_unresolved = any(is_u(k) for k, _, _ in base["errs"])
     for k, _, m in after["errs"]:
-        if k == "S" or is_u(k):
+        if k == "S" or (is_u(k) and was_unresolved):
             continue
         if m in old_msgs:
             old_msgs.remove(m)
-        elif name not in m:
+        elif not (was_unresolved and name in m):
             bad.append("new diagnostic after applying the edit: " + m[:120])
     if sorted(after["comments"]) != sorted(base["comments"]):
         bad.append("comments lost or changed")
@@ -677,6 +685,46 @@ def nosemi_signature(doc, edits):
         if a < end_off:
             return False
     return True
+
+
+KEYWORDS = {"import", "from", "class", "interface", "private", "function", "method", "val", "let", "if", "then", "else",
+            "match", "int", "bool", "unit", "true", "false", "this"}
+
+
+def ident_offsets(doc, cap=48):
+    """(byte offset, word) of the identifiers of a document (comments blanked), class names first."""
+    plain = strip_comments(doc)
+    out = []
+    for m in re.finditer(r"[A-Za-z_][A-Za-z0-9_]*", plain):
+        if m.group(0) not in KEYWORDS:
+            out.append((len(plain[:m.start()].encode()), m.group(0)))
+    upper = [x for x in out if x[1][0].isupper()]
+    rest = [x for x in out if not x[1][0].isupper()]
+    return sorted((upper + rest)[:cap])
+
+
+def positions_arg(text, offsets):
+    tb = text.encode(); starts = line_starts(tb)
+    import bisect
+    ps = []
+    for o in offsets:
+        l = bisect.bisect_right(starts, o) - 1
+        ps.append(f"{l}:{o - starts[l]}")
+    return ",".join(ps) or "-"
+
+
+def shifted_offsets(doc, edits, offsets):
+    """Offsets of the same tokens after the edits; None unless all edits are zero-width insertions."""
+    tb = doc.encode(); starts = line_starts(tb)
+    ins = []
+    for (sl, sc, el, ec), new in edits:
+        if (sl, sc) != (el, ec):
+            return None
+        a = pos_to_off(tb, starts, sl, sc)
+        if a is None:
+            return None
+        ins.append((a, len(new.encode())))
+    return [o + sum(n for a, n in ins if a <= o) for o in offsets]
 
 
 class DocRunner:
@@ -750,12 +798,20 @@ class DocRunner:
             e_lines += c["lines"]
             c["ilocs_at"] = len(e_lines)
             e_lines.append(f"ilocs {hexs(c['doc'])}")
+            c["idents"] = ident_offsets(c["doc"])
+            if c["idents"] and any(a.get("spliced") is not None for a in c["actions"]):
+                c["defs_at"] = len(e_lines)
+                e_lines.append(f"defs Doc {hexs(c['doc'])} {positions_arg(c['doc'], [o for o, _ in c['idents']])}")
             for a in c["actions"]:
                 if a.get("spliced") is not None:
                     a["eval_at"] = len(e_lines)
                     e_lines.append(f"eval Doc {hexs(a['spliced'])}")
                     a["ilocs_at"] = len(e_lines)
                     e_lines.append(f"ilocs {hexs(a['spliced'])}")
+                    sh = shifted_offsets(c["doc"], a["edits"], [o for o, _ in c["idents"]])
+                    if sh is not None and c.get("defs_at") is not None:
+                        a["defs_at"] = len(e_lines)
+                        e_lines.append(f"defs Doc {hexs(a['spliced'])} {positions_arg(a['spliced'], sh)}")
         e_out = self.harness(e_lines) if e_lines else []
         self.tie_auto_import(cases, e_out, label)
         # verdicts
@@ -898,6 +954,8 @@ class DocRunner:
                 for it in items:
                     lh, dh, eh = it.split("|")
                     (chosen if unhex(lh).decode() == nm else others).append((lh, dh, eh))
+                own = available_names(c)
+                others.sort(key=lambda it: 0 if unhex(it[0]).decode() in own else 1)   # colliding names first
                 for lh, dh, eh in chosen + others[:2]:
                     acts.append(self.mk_action(c, "qc", ql, unhex(lh).decode(), None, eh, unhex(dh).decode()))
             # which completion items carry an auto-import edit (lib.rs:686-698): exactly the classes /
@@ -955,10 +1013,26 @@ class DocRunner:
                         if i in new: new.remove(i)
                     module = new[0].rsplit(":", 1)[0] if new else "?"
                 bad = judge(c["doc"], c["base"], after, a["name"], module, a["reason"])
+                if a["name"] == c.get("private_name"):
+                    # a private class is not "a class that some other module exports": the server offers it anyway
+                    # (interfaces.contains_key ignores `private`) and importing it reports "no such export" - outside
+                    # the property's quantifier (see reports/C16.md, observations)
+                    bad = [b for b in bad if not (b.startswith("new diagnostic") and a["name"] in b)]
                 if c.get("ifaces") is not None and module not in c["ifaces"] and module not in ("?", None):
                     bad.append(f"the edit imports from module `{module}`, which does not exist in the workspace")
                 if a["kind"] == "qc" and module not in c["exporters"] and a["name"] == c["need"]:
                     bad.append(f"completion imports `{a['name']}` from `{module}` which does not export it")
+                if a.get("defs_at") is not None and a["defs_at"] < len(e_out) and c.get("defs_at") is not None:
+                    before_d, after_d = e_out[c["defs_at"]].split(","), e_out[a["defs_at"]].split(",")
+                    had_u = any(k.startswith("U:" + hexs(a["name"] or "")) for k, _, _ in c["base"]["errs"])
+                    if len(before_d) == len(after_d) == len(c["idents"]):
+                        for (o, word), x, y in zip(c["idents"], before_d, after_d):
+                            if x != y and x not in ("-", "panic") and not (word == a["name"] and had_u):
+                                # (what did not resolve before may start resolving: the imported class and its members)
+                                fmt = lambda d: d if d in ("-", "panic") else d.split("@")[0] + ": " + unhex(d.split("@")[1]).decode("utf-8", "replace")
+                                bad.append(f"reference `{word}` (byte {o}) resolved to [{fmt(x)}] before the edit and to [{fmt(y)}] after it")
+                                break
+                        self.stats["definition_targets_compared"] = self.stats.get("definition_targets_compared", 0) + len(c["idents"])
                 a["after"] = after
             if a.get("module") or (a.get("after") and a.get("name")):
                 tgt = a.get("module") or module
@@ -1490,6 +1564,32 @@ class Main {
 """
 
 
+def collision_family():
+    """The document declares a class / interface / private class X whose name another module also exports
+    (x X additionally imported from a third module or not); quick fix and class completion are requested
+    for an unrelated unresolved class Y.  No item may import X (the name denotes the local declaration),
+    and after applying any item's edits every reference must still resolve where it did."""
+    mods = {m: list(cs) for m, cs in ROLE_MODS.items()}
+    srcs = {m: exporter_text(None, cs, None) for m, cs in mods.items()}
+    cases = []
+    for x, third in (("Bar", "lib.deep.C"), ("Qux", "lib.B"), ("Foo", "A")):
+        for kind in ("class", "interface", "private class"):
+            for imported in (False, True):
+                for other_import in ("", "import { Zed } from lib.deep.C;\n"):
+                    decl = (f"interface {x} {{ function own(): int }}" if kind == "interface"
+                            else f"{kind} {x} {{\n  function own(): int = 7\n}}")
+                    use = (f"class Main {{\n  function f(v: {x}): int = 1\n  function main(): int = Only.bar()\n}}" if kind == "interface"
+                           else f"class Main {{\n  function main(): int = {x}.own() + Only.bar()\n}}")
+                    doc = other_import + (f"import {{ {x} }} from {third};\n" if imported else "") + decl + "\n" + use + "\n"
+                    lines = ["new"] + [f"src {m} {hexs(t)}" for m, t in srcs.items()] + [f"src Doc {hexs(doc)}", "init"]
+                    ifaces = {m: list(cs) + ["IThing"] for m, cs in mods.items()}
+                    cases.append({"lines": lines, "doc": doc, "need": "Only", "exporters": ["D"], "ifaces": ifaces, "role": "Only",
+                                  "offer_optional": False, "private_name": "Hidden",
+                                  "meta": {"history": "collision", "imports": int(imported) + int(bool(other_import)), "layout": "plain",
+                                           "names": "short-class/short-module", "stale": ""}})
+    return cases
+
+
 def member_completion_family(ctx, runner, stats):
     """Completion arms other than class names (member access, local variables, lib.rs:643-688, 740-808):
     their items must never carry additional edits."""
@@ -1578,6 +1678,7 @@ def run(ctx):
         for name, case in cdocs:
             case.setdefault("meta", {"history": "corpus", "imports": -1})
             corpus_runner.run_cases([case], f"corpus/{name}")
+        corpus_runner.run_cases(collision_family(), "deterministic name-collision family")
         ndocs = ctx.scale(1040, 20000)
         if ctx.violations:
             report_deferred(ctx, runner, corpus_runner.deferred, rng, stats)
@@ -1647,6 +1748,7 @@ def run(ctx):
         "completion_edit_sets_checked": stats.get("completion_sets", 0), "completion_edit_sets_as_expected": stats.get("completion_sets_ok", 0),
         "quick_fix_decision_model_ties": stats.get("tie_cadec", 0), "quick_fix_decision_model_ties_equal": stats.get("tie_cadec_ok", 0),
         "completion_decision_model_ties": stats.get("tie_cdec", 0), "completion_decision_model_ties_equal": stats.get("tie_cdec_ok", 0),
+        "definition_targets_compared_before_after": stats.get("definition_targets_compared", 0),
         "actions_whose_module_was_already_imported_with_other_members": stats.get("target_module_already_imported", 0),
         "text_model_auto_import_actions": stats["tie_aimp"], "text_model_auto_import_actions_equal": stats["tie_aimp_ok"],
         "diff_pairs": stats["diff_lines"], "distinct_pairs": len(stats["distinct_pairs"]),
